@@ -232,13 +232,13 @@ func verifRegister(q *queue) {
 }
 
 // VerifStranded counts queues in the state "open, head block drained, unread
-// data in a later block, no wake-up token pending": a reader that armed
-// ReadWait in this state sleeps although a message is readable.
+// data in a later block, no wake-up token pending, and the reader has armed
+// ReadWait since its last Read": that reader sleeps although a message is readable.
 func VerifStranded() int {
 	n := 0
 	for _, x := range simrt.RegList("bytequeue") {
 		q := x.(*queue)
-		if q.closed || q.head == nil || len(q.more) == 0 || len(q.readChan) != 0 {
+		if q.closed || q.head == nil || len(q.more) == 0 || len(q.readChan) != 0 || !q.verifArmed {
 			continue
 		}
 		if q.head.readIndex < q.head.writeIndex {
@@ -303,6 +303,11 @@ def prepare_baselibrary(dst, instrument_bin):
     p = os.path.join(dst, "alloc/bytequeue/queue.go")
     sub_once(p, "func newQueue(heap *heap.Heap, cap int) *queue {\n\treturn &queue{", "func newQueue(heap *heap.Heap, cap int) *queue {\n\tq := &queue{")
     sub_once(p, "\t\twriteChan: make(chan struct{}, 1),\n\t}\n}", "\t\twriteChan: make(chan struct{}, 1),\n\t}\n\tverifRegister(q)\n\treturn q\n}")
+    # ... and only while a reader has actually armed the wait after its last Read (a reader that is simply not
+    # reading at the moment has nothing to be woken for)
+    sub_once(p, "\tmore   []*block\n}", "\tmore   []*block\n\n\tverifArmed bool // verif: ReadWait handed out the live channel and Read has not been called since\n}")
+    sub_once(p, "\tselect {\n\tcase <-q.readChan:\n\tdefault:\n\t}\n\n\treturn q.readChan\n}", "\tselect {\n\tcase <-q.readChan:\n\tdefault:\n\t}\n\n\tq.verifArmed = true\n\treturn q.readChan\n}")
+    sub_once(p, "func (q *queue) Read() ([]byte, bool, status.Status) {\n\tq.rmu.Lock()\n\tdefer q.rmu.Unlock()\n", "func (q *queue) Read() ([]byte, bool, status.Status) {\n\tq.rmu.Lock()\n\tdefer q.rmu.Unlock()\n\tq.verifArmed = false\n")
     with open(os.path.join(dst, "alloc/bytequeue/zz_verif.go"), "w") as f:
         f.write(BYTEQUEUE_VERIF_GO)
     # seams of the blocking primitives the code under test reaches (no yields inside baselibrary)
